@@ -118,6 +118,37 @@ def check(prog, run):
                               "%s: build(parse(b)) does not reproduce the canonical response: %s" % (c, "; ".join(bad)), file, fm.node.lineno, fm.qualname)
             else:
                 run.ok("build-after-parse", c, {"bytes": len(bc.cells)})
+    # read-modify-write from images that do NOT come from the library's own marshaller: the reference TransportID
+    # images of spec/paramlists.py (all protocol kinds, iSCSI names of every length residue)
+    from spec import paramlists as refpl
+    fs = prog.cls(*refpl.FS.split(":"))
+    fm = prog.func(fs.module.name, fs.name, "marshall_transport_id")
+    for kind in refpl.TID_KINDS + [("iscsi", "iqn.abcdefgh"), ("iscsi", "iqn.1993-08.org.debian:01:90c27cf89279abcdef"), ("iscsi", "iqn.ab", "0000000001")]:
+        ncase += 1
+        c = "TransportID reference image %r" % (kind,)
+
+        def th2(kind=kind):
+            d, img = refpl.transport_id(kind)
+            b = img.to_buf()
+            d2 = I.call(I.get_attr(fs, "unmarshall_transport_id", None, _F()), [Buf(cells=list(b.cells))], {}, None, _F())
+            b2 = I.call(I.get_attr(fs, "marshall_transport_id", None, _F()), [d2], {}, None, _F())
+            return img, d, d2, b2
+        for p in I.explore(th2, max_paths=16):
+            if not p.returned:
+                run.violation("roundtrip-total", c, "parsing / rebuilding the standard's image raises %s" % p.raised.describe(),
+                              prog.rel(fm.module), fm.node.lineno, fm.qualname)
+                continue
+            img, d, d2, b2 = p.value
+            diff = img.diff(b2 if isinstance(b2, Buf) else Buf(cells=list(b2)) if isinstance(b2, bytes) else b2)
+            miss = first_subset_difference({k: v for k, v in d.items() if k != "tpid_format"}, d2, "") if isinstance(d2, dict) else "not a dict"
+            if miss:
+                run.violation("parse-of-standard-image", c, "parsing the standard's TransportID image does not return the values in it: %s" % miss,
+                              prog.rel(fm.module), fm.node.lineno, fm.qualname)
+            elif diff:
+                run.violation("build-after-parse", c, "build(parse(b)) does not reproduce the standard's image: %s"
+                              % "; ".join("byte %s: expected %s got %s" % x for x in diff[:3]), prog.rel(fm.module), fm.node.lineno, fm.qualname)
+            else:
+                run.ok("build-after-parse", c, {"bytes": len(img)})
     run.count("cases", ncase)
     run.floor("round-trip cases", ncase, 60)
 
